@@ -370,6 +370,37 @@ def _unraised_exceptions(program, res):
     res.extra["unraised_exception_sites"] = n
 
 
+def _s1_allow_lists(program, res):
+    """'a non-aggregating window or project expression is rejected when the step is added': a deny-list of operator names cannot do that
+    (any other element-wise method, abs / exp / unary minus, passes); the constructor needs a raise guarded by a *positive* vocabulary test,
+    `<expr>.op not in <aggregators / window functions>`"""
+    for (cname, what, example) in (("ProjectNode", "aggregators", "project({'z': 'x.abs()'}, group_by=['g'])"),
+                                   ("ExtendNode", "window functions", "extend({'z': 'x.abs()'}, partition_by=['g'])")):
+        init = program.cls("view_representations", cname).methods.get("__init__")
+        if init is None:
+            raise AnalysisError(f"anchor vanished: {cname}.__init__")
+        res.analysed(init)
+        g = cfgmod.build(init.node)
+        positive = []
+        negative = []
+        for r in g.raises():
+            for (b, lab) in g.lexical_guards(r):
+                for c in ast.walk(b.cond):
+                    if isinstance(c, ast.Compare) and len(c.ops) == 1 and isinstance(c.left, ast.Attribute) and c.left.attr == "op":
+                        # raise when (op not in SET) is true, or when (op in SET) is false
+                        if (isinstance(c.ops[0], ast.NotIn) and lab is True) or (isinstance(c.ops[0], ast.In) and lab is False):
+                            positive.append(unparse(c))
+                        elif isinstance(c.ops[0], (ast.In, ast.NotIn)):
+                            negative.append(unparse(c))
+        if positive:
+            res.ok("C26-S1", f"{cname}: operator names are checked against a vocabulary of {what} (`{positive[0][:60]}`)")
+        else:
+            res.fail_at("C26-S1", init, f"no-positive-vocabulary:{cname}",
+                        f"{cname}.__init__ rejects operators only through deny-lists ({len(negative)} tests such as `{(negative or ['-'])[0][:70]}`): an element-wise "
+                        f"method that is not one of the {what} is accepted when the step is added and fails only at evaluation "
+                        f"({example} builds; Pandas then raises AttributeError / 'not a valid function name for transform')")
+
+
 def run(program, res, tier):
     res.rule("C26-S1", "each documented construction rule has a raise whose own guard depends on the rule's inputs")
     res.rule("C26-S2", "every non-leaf node kind has build-time validation rows")
@@ -379,6 +410,7 @@ def run(program, res, tier):
     _s1(program, res)
     _s1_lookup_symbol(program, res)
     _s1_use_and_produce(program, res)
+    _s1_allow_lists(program, res)
     _s2(program, model, res)
     c06._s3_s4(program, model, res, s3="C26-S3", s4="C26-S3")
     _unraised_exceptions(program, res)
